@@ -19,7 +19,7 @@ PRE = ("From Coq Require Import List NArith ZArith.\nFrom Echo Require Import Ba
 CAP = 256 << 20          # child allocation cap (bytes above the baseline at call time)
 STACK = 8 << 20          # child worker stack
 ORACLE_C, ORACLE_C0 = 256, 64 << 10
-TIMEOUT_MS = 10000     # wall budget per input (a healthy decoder needs < 100 ms for 1 MiB)
+TIMEOUT_MS = 30000     # CPU budget per input (a healthy decoder needs < 2 s CPU for 1 MiB in the debug profile, unloaded)
 MODEL_MAX = 600          # inputs up to this many bytes are also run through the Coq model
 ERR_SLACK = 512          # error-message strings are not charged by the model
 NAN = 0x7ff8000000000000
@@ -174,6 +174,19 @@ EINT_FAMILY = {"abi-env-intent": "any", "abi-env-control": "control", "abi-env-i
 
 def eint_spec(op, inner_spec, inner_len):
     return (b"EINT" + op.to_bytes(4, "little") + inner_len.to_bytes(4, "little")).hex() + "+" + inner_spec
+
+
+def expand_spec(sp):
+    """bytes of a small input spec (no random parts), else None"""
+    out = bytearray()
+    for part in sp.split("+"):
+        if part.startswith("r"):
+            return None
+        if "*" in part:
+            h, c = part.split("*"); out += bytes.fromhex(h) * int(c)
+        elif part != "-":
+            out += bytes.fromhex(part)
+    return bytes(out)
 
 
 def LAYERED(dec):
@@ -436,6 +449,20 @@ def big_specs(rng, dec, seeds, cborish, tier, ops=None):
 
 # ----------------------------------------------------------------------------- run
 
+def coq_eval_batched(tag, terms, k=40):
+    """vm_compute has a fixed ~0.1 s cost per Eval: evaluate k terms per Eval as one Gallina list."""
+    if not terms:
+        return []
+    groups = [terms[i:i + k] for i in range(0, len(terms), k)]
+    vals = vf.coq_eval(tag, PRE, ["[" + "; ".join(g) + "]" for g in groups], shards=min(vf.NCPU, max(1, len(groups))))
+    out = []
+    for g, v in zip(groups, vals):
+        if len(v) != len(g):
+            raise vf.Broken(f"batched model evaluation returned {len(v)} values for {len(g)} terms")
+        out += v
+    return out
+
+
 def harness_run(bins, tag, lines, extra=()):
     path = vf.write_cases(tag, lines)
     rc, out = vf.run_bin(bins["c13"], path, timeout=2400,
@@ -536,14 +563,16 @@ def run(tier, seed, replay=None):
     t3 = time.time()
 
     # ---- P4: model vs implementation on abi-cbor (small inputs, given in plain hex)
-    tied = []
+    tied, tied_bytes = [], []
     for i, c in enumerate(cases):
         sp = field(c, "in")
-        if field(c, "dec") == "abi-cbor" and "*" not in sp and "+" not in sp and not sp.startswith("r") and len(sp) <= 2 * MODEL_MAX:
-            tied.append(i)
+        if field(c, "dec") == "abi-cbor" and spec_len(sp) <= MODEL_MAX:
+            b = expand_spec(sp)
+            if b is not None:
+                tied.append(i); tied_bytes.append(b)
     differing = []
     try:
-        obs = vf.coq_eval("c13", PRE, [model_term(bytes.fromhex(field(cases[i], "in").replace("-", ""))) for i in tied])
+        obs = coq_eval_batched("c13", [model_term(b) for b in tied_bytes])
         mclass = collections.Counter()
         dhist = collections.Counter()
         for i, v in zip(tied, obs):
@@ -561,8 +590,11 @@ def run(tier, seed, replay=None):
     wtied = [i for i, l in enumerate(impl) if field(l, "dec") == "wsc-read" and field(l, "class") == "value"
              and field(l, "val").startswith("base:")]
     wdiff = 0
+    for i, l in enumerate(impl):
+        if field(l, "dec") == "wsc-read" and field(l, "class") not in ("value", "error"):
+            differing.append((i, f"wsc-read: impl {field(l, 'class')} {field(l, 'detail')[:80]}; the model (wsc_read_no_panic) has no panic"))
     try:
-        wobs = vf.coq_eval("c13wsc", PRE, [wsc_model_term(field(impl[i], "val")) for i in wtied])
+        wobs = coq_eval_batched("c13wsc", [wsc_model_term(field(impl[i], "val")) for i in wtied], 100)
         whist = collections.Counter()
         for i, v in zip(wtied, wobs):
             got = ",".join(field(impl[i], "val").split(",")[4:])
@@ -658,7 +690,7 @@ MANIFEST_WHEN_FIXED = {
              "allocator, bounded stack and CPU budget; the oracle requires value|typed error and peak <= 256*len + 64 KiB."),
     "note": ("Proof level holds for the modelled code only (decode_value, wsc/read.rs range checks). Stack exhaustion and allocator abort "
              "are runtime effects: the theorems bound the model's depth/allocation meters, the tie checks exit status and measured peak of "
-             "the real process (debug profile, 8 MiB stack, 256 MiB cap, 10 s CPU per input). All other decoders, including everything "
+             "the real process (debug profile, 8 MiB stack, 256 MiB cap, 30 s CPU per input). All other decoders, including everything "
              "built on serde/ciborium/minicbor, are exploration (isolated-child oracle), not proof. Error-message strings (< 512 B) are "
              "not charged by the model. Trusted: Coq kernel + vm_compute, python generator/comparator, harness c13.rs (GlobalAlloc "
              "counter, child re-exec, stderr classification)."),
